@@ -308,6 +308,10 @@ def run(fx, chk, tier):
         else:
             chk.bad("R6", key, o["how"], o["site"], o.get("detail"))
     chk.floor("R6", "size-word obligations", n6, 90)
+    # ---------------- R7: the 64-bit size-header form decodes like the compact one (instances owned by C12)
+    from packs_common import compose
+    chk.rule("R7", "a box whose header uses the 64-bit size form decodes identically: header constants and every advance past a child are based on the position after its header (C12 R4/R5 instances)")
+    compose(fx, chk, tier, "R7", "C12", ["R4", "R5"], floor=25, what="64-bit header obligations")
     return chk.finish(
         "other",
         "Write and read layouts of %d box types (extracted from HIR) are compared with an independent table of the ISO/IEC 14496 family layouts in every shape cell; four-character codes, bit packing and header forms likewise. "
